@@ -119,6 +119,21 @@ func init() {
 	natives[pkgMath+"LegacyNewDec"] = func(x *Exec, st *State, fr *Frame, at ssa.Instruction, a []Val) (Val, bool) {
 		return Val{T: x.define(st, "mi", mkMInt(App(SInt, "*", a[0].T, IntLitStr(decP)))), Typ: decType(x)}, true
 	}
+	natives[pkgMath+"LegacyNewDecFromStr"] = func(x *Exec, st *State, fr *Frame, at ssa.Instruction, a []Val) (Val, bool) {
+		// (dec, err): a function of the string; on success the decimal is not nil
+		if len(a) != 1 || a[0].T.Sort != SStr {
+			return Val{}, false
+		}
+		x.D.DeclareFun("dec.ofstr", []string{SStr}, SInt)
+		x.D.DeclareFun("dec.ofstr.ok", []string{SStr}, SBool)
+		ok := App(SBool, "dec.ofstr.ok", a[0].T)
+		errT := x.D.Fresh("decerr", SIface)
+		st.assume(Eq(Eq(errT, TINil), ok))
+		d := Ite(ok, mkMInt(App(SInt, "dec.ofstr", a[0].T)), Term{"(mk-mint true 0)", SMInt})
+		dv := Val{T: x.define(st, "mi", d), Typ: decType(x)}
+		ev := Val{T: errT, Typ: types.Universe.Lookup("error").Type()}
+		return Val{T: Term{"unit", SUnit}, Tup: []Val{dv, ev}}, true
+	}
 	natives[pkgMath+"LegacyZeroDec"] = func(x *Exec, st *State, fr *Frame, at ssa.Instruction, a []Val) (Val, bool) {
 		return Val{T: mkMInt(IntLit(0)), Typ: decType(x)}, true
 	}
